@@ -118,7 +118,13 @@ fn answer(cmd: PeerCmd, pol: &Policy, n: usize, plens: &[usize], hashes: &[[u8; 
             Some(format!("REQUEST:{}", piece_index))
         }
         PeerCmd::PieceDone { resp_ch, .. } | PeerCmd::PieceCancel { resp_ch, .. } => unreachable_piece(resp_ch),
-        PeerCmd::SyncStats { .. } => None,
+        // the transfer statistics the task reports every 10 s once its two-interval window is full
+        PeerCmd::SyncStats { downloaded_rate, uploaded_rate, unexpected_blocks, .. } => Some(format!(
+            "STATS:{}:{}:{}",
+            downloaded_rate.map(|v| v.to_string()).unwrap_or("-".to_string()),
+            uploaded_rate.map(|v| v.to_string()).unwrap_or("-".to_string()),
+            unexpected_blocks
+        )),
         PeerCmd::KillReq { reason, .. } => Some(format!("KILL:{}", if reason == "End job normally" { "N" } else { "E" })),
     }
 }
@@ -282,7 +288,8 @@ async fn run_case(line: &str, scratch: &std::path::Path) -> String {
                 }
             }
             // never stop exactly on a keep-alive instant: whether that tick was already handled would be a race
-            if !progressed && (t[0] == "start" || t0.elapsed().as_millis() % 120000 != 0) {
+            // (nor on a statistics instant, every 10 s)
+            if !progressed && (t[0] == "start" || t0.elapsed().as_millis() % 10000 != 0) {
                 break;
             }
         }
